@@ -111,6 +111,17 @@ def check_plog(m, fam, k, acc):
         acc.violation(None, case, {"what": "query menu raised", "exc": repr(e), "model": show(m)})
         return
     acc.n("transitions", 2 * len(o0))
+    try:
+        used = bind(m)[0]
+        observe(used, leaves)
+        f_used = fingerprint(pg.from_b64(used.to_b64()))
+    except BaseException as e:
+        acc.violation(None, case, {"what": "to_b64 after the query menu raised", "exc": repr(e), "model": show(m)})
+        return
+    if f_used != f0:
+        acc.violation(None, case, {"what": "an object that has answered queries packs to something else than a fresh identical object", "model": show(m),
+                                   "diff": diff(f0, f_used)})
+        return
     if o0 != o1:
         j = next(i for i in range(len(o0)) if o0[i] != o1[i])
         acc.violation(None, case, {"what": "a query answers differently after the round trip", "model": show(m), "query": o0[j][0],
